@@ -6,7 +6,7 @@ import ComposeVerif.Model.Merge
 `CV.Gen.unique` it keeps one entry per index key: a later entry with the same key replaces the earlier
 one **at the earlier position**.  That loop is exactly `foldl (insert key entry) []` on an association
 list (`dedup`).  Sequences are not descended into.  Indexers are modelled with their error classes and
-their two unchecked assertions (`mountIndexer`: `target.(string)`, `envFileIndexer`: `path.(string)`).
+(since the round-2 `fix:` commits `mountIndexer` / `envFileIndexer` report a non-string target / path as an error).
 `fmt.Sprintf` with `%s` / `%d` on arbitrary `any` values (port and mount keys) is modelled, including the
 `%!s(int=80)` forms — the keys are only compared with one another, but they must collide exactly when
 Go's do.
@@ -140,7 +140,7 @@ def index : Indexer → Val → Out String
   | .mount d, .map kvs =>
     match lookup "target" kvs with
     | some (.str t) => .ok t
-    | some _ => .panic "override.mountIndexer"
+    | some _ => .err "unexpectedType"
     | none => .ok (d ++ "/" ++ sprintArg 's' true ((lookup "source" kvs).getD .null))
   | .mount _, _ => .err "unsupportedValue"
   | .port, .int i => .ok (toString i)
@@ -151,7 +151,8 @@ def index : Indexer → Val → Out String
       let published := (lookup "published" kvs).getD .null
       let host := (lookup "host_ip" kvs).getD (.str "0.0.0.0")
       let protocol := (lookup "protocol" kvs).getD (.str "tcp")
-      .ok (sprintArg 's' true host ++ ":" ++ sprintArg 's' true published ++ ":" ++ sprintArg 'd' true target
+      -- `%s:%v:%v/%s`: published and target print alike whether written as a number or as a string
+      .ok (sprintArg 's' true host ++ ":" ++ Merge.fmtV published ++ ":" ++ Merge.fmtV target
             ++ "/" ++ sprintArg 's' true protocol)
   | .port, .str s => .ok s
   | .port, _ => .ok ""
@@ -159,7 +160,7 @@ def index : Indexer → Val → Out String
   | .envFile, .map kvs =>
     match lookup "path" kvs with
     | some (.str s) => .ok s
-    | some _ => .panic "override.envFileIndexer"
+    | some _ => .err "unexpectedType"
     | none => .err "missingPath"
   | .envFile, _ => .ok ""
   | .unknown, _ => .err "unknown-indexer"
